@@ -379,7 +379,9 @@ class Gen:
             if rng.random() < 0.5:
                 n["kids"].append(N("case", self.name(), kids=self.children(depth + 2, uses_ok, nochoice=True)))
             else:
-                n["kids"].append(self.leaf(allow_mand=False) if rng.random() < 0.7 else self.container(depth + 1, uses_ok))
+                k = self.leaf(allow_mand=False) if rng.random() < 0.7 else self.container(depth + 1, uses_ok)
+                k["status"] = 0      # shorthand case: its status is copied from the child AFTER the augments of the case were applied (quirk, see DESIGN-notes)
+                n["kids"].append(k)
         if rng.random() < 0.2: n["mand"] = True
         return n
 
